@@ -12,6 +12,7 @@ import contextlib
 P_FIN_A = "c = 0\nx = 0\nwhile true:\n    c = DiscreteUniform(0, 2)\n    x = x + c**2\nend\n"
 P_FIN_B = "d = 2\ny = 1\nwhile true:\n    d = 0 {1/2} 1 {1/4} 2\n    y = y + d**3 - d\nend\n"
 P_TRIG = "g = 0\nx = 0\nwhile true:\n    g = Normal(0, 1)\n    s = Cos(g)\n    x = x + s\nend\n"
+P_TRIG_LAG = "y = 0\ns = 5\nx = 0\nwhile true:\n    g = Normal(0, 1)\n    y = y + s\n    s = Cos(g)\n    x = x + g\nend\n"
 P_CAT = "c = 1\nx = 0\nwhile true:\n    x = x + 1 {1/2} x - 1\n    c = 0 {1/3} 1\n    if c == 1:\n        x = x + c\n    end\nend\n"
 P_IFS = "c = 1\nd = 0\nx = 0\ny = 0\nwhile c == 1:\n    c = Bernoulli(1/2)\n    x, y = y, x + 1\n    if d == 0:\n        d = 1\n        x = x + 1\n    else:\n        d = 0\n    end\nend\n"
 P_INV = "x = 1\ny = 1\nz = 0\nwhile true:\n    x = 4*x\n    y = 2*y\n    z = z + y\nend\n"
@@ -119,6 +120,7 @@ OPS = {
     "finB": lambda: _moments(P_FIN_B, ["y", "y**2", "d**3"]),
     "trig_exact": lambda: _moments(P_TRIG, ["x", "x**2"], {"exact_func_moments": True}),
     "trig_rounded": lambda: _moments(P_TRIG, ["x", "x**2"], {"exact_func_moments": False}),
+    "trig_lag": lambda: _moments(P_TRIG_LAG, ["y", "x**2"], {"exact_func_moments": True}),
     "cat": lambda: _moments(P_CAT, ["x", "c", "x**2"]),
     "cat_transformed": lambda: _moments(P_CAT, ["x", "c", "x**2"], {"transform_categoricals": True}),
     "ifs": lambda: _moments(P_IFS, ["x", "y", "x*y", "d"]),
